@@ -88,7 +88,7 @@ func init() {
 				}
 				events += int64(len(lines))
 				if len(lines) > 0 {
-					c.R.Sample(json.RawMessage(trunc(lines[0], 500)))
+					c.R.Sample(trunc(lines[0], 500))
 				}
 			}(i, t)
 		}
